@@ -4,12 +4,16 @@ import Tahoe.Storage.ImmRangeLemmas
 import Tahoe.Storage.ImmTimeLemmas
 /-!
 C22 — immutable share storage semantics (property theorems only; helper lemmas live in
-`Tahoe/Storage/ImmLemmas.lean` and `Tahoe/Storage/ImmServerLemmas.lean`).
+`Tahoe/Storage/ImmLemmas.lean`, `ImmServerLemmas.lean`, `ImmConnLemmas.lean`, `ImmDirLemmas.lean`,
+`ImmRangeLemmas.lean`, `ImmTimeLemmas.lean`).
 
 Model: `Tahoe/Storage/Immutable.lean` (ShareFile / BucketWriter / BucketReader / allocate_buckets /
-get_buckets); specification and abstraction function: `Tahoe/Storage/ImmSpec.lean`.
-`WF` is the reachable-state invariant; `invariant_holds` shows every history from an empty server
-satisfies it, so the hypotheses `WF s` below are never vacuous restrictions.
+get_buckets; Foolscap front end `allocateConn` / `disconnectOp`; HTTP PATCH rule `httpWriteOp`; restart
+`restartOp`; histories `Op` (direct calls) and `FOp` (front end)), `Tahoe/Storage/ImmDirs.lean` (the
+incoming/final directory tree); specification and abstraction function: `Tahoe/Storage/ImmSpec.lean`.
+`WF` (containers, one writer per incoming file) and `WFH` (distinct, never reused handles) are the
+reachable-state invariants; `invariant_holds` / `reachable_invariants` show every history from an empty
+server satisfies them, so the hypotheses `WF s` below are never vacuous restrictions.
 -/
 /-!
 ## Coverage of the statement (properties.jsonl C22)
